@@ -541,7 +541,7 @@ func TestC13(t *testing.T) {
 			return
 		}
 		kC13Collide.Run(t, ev, perShard(pick(12, 600)))
-		kC13.Run(t, ev, perShard(pick(2000, 40000)))
+		kC13.Run(t, ev, perShard(pick(2000, 15000)))
 		ev.requireClasses("C13:P=0", "C13:P=32", "C13:N*M>=2^32", "C13:empty-filter", "C13:empty-query",
 			"C13:MatchAny->hash-branch", "C13:MatchAny->zip-branch", "C13:low-32-bit-collision-with-a-member")
 	})
